@@ -134,6 +134,7 @@ Section Programs.
     | KRec fs => map snd fs
     | KFun _ => []
     | KTree _ => []
+    | KRecR _ => []
     end.
 
   (** no marker in a nested literal *)
@@ -148,7 +149,12 @@ Section Programs.
 
   (** No marker in the container itself; a function container is one of the scalar functions. *)
   Definition container_ok (k : container) : Prop :=
-    ~ In AProbe (atoms_of k) /\ match k with KFun o => fn_scalar o | KTree t => pf_tree t | _ => True end.
+    ~ In AProbe (atoms_of k) /\ match k with
+                                 | KFun o => fn_scalar o
+                                 | KTree t => pf_tree t
+                                 | KRecR _ => False      (* recursive records: see RecEnv.v *)
+                                 | _ => True
+                                 end.
 
   Lemma AR_in : forall xs, ~ In AProbe xs -> forall x, In x xs -> RelT (thunk_of_atom x) (thunk_of_atom x).
   Proof. intros xs N x Hx. apply atom_rel. intros ->. auto. Qed.
@@ -172,7 +178,7 @@ Section Programs.
       (map (fun '(k, a) => (k, (thunk_of_atom a, []))) l).
   Proof.
     induction l as [|[k1 a1] l IH]; intros N; cbn in *; constructor.
-    - split; [reflexivity|]. intros q1 q2 n S1 S2. cbn [fst snd] in *.
+    - split; [reflexivity|]. split; [sfx|]. split; [sfx|]. intros q1 q2 n S1 S2. cbn [fst snd] in *.
       apply same_ctrs_nil in S1, S2. subst. apply atom_rel. intros ->. apply N. now left.
     - apply IH. intros C. apply N. now right.
   Qed.
@@ -187,7 +193,7 @@ Section Programs.
       + apply IHxs. apply P.
     - apply relT_val. constructor. apply RV_rec'.
       revert fs P. fix IHfs 1. intros [|[k x] fs] P; cbn in *; constructor.
-      + split; [reflexivity|]. intros q1 q2 n S1 S2. cbn [fst snd] in *.
+      + split; [reflexivity|]. split; [sfx|]. split; [sfx|]. intros q1 q2 n S1 S2. cbn [fst snd] in *.
         apply same_ctrs_nil in S1, S2. subst. apply IH. apply P.
       + apply IHfs. apply P.
   Qed.
@@ -207,20 +213,20 @@ Section Programs.
         * apply IHxs. apply P.
       + cbn [thunk_of_tree]. apply relT_val. constructor. apply RV_rec'.
         revert i P. induction fs as [|[k x] fs IHfs]; intros [|i] P; cbn in *; constructor.
-        * split; [reflexivity|]. intros q1 q2 n S1 S2. cbn [fst snd] in *.
+        * split; [reflexivity|]. split; [sfx|]. split; [sfx|]. intros q1 q2 n S1 S2. cbn [fst snd] in *.
           apply same_ctrs_nil in S1, S2. subst. apply IH. apply P.
         * clear IHfs. destruct P as [_ P]. induction fs as [|[k2 y] ys IHy]; cbn in *; constructor.
-          -- split; [reflexivity|]. intros q1 q2 n S1 S2. cbn [fst snd] in *.
+          -- split; [reflexivity|]. split; [sfx|]. split; [sfx|]. intros q1 q2 n S1 S2. cbn [fst snd] in *.
              apply same_ctrs_nil in S1, S2. subst. apply tree_refl. apply P.
           -- apply IHy. apply P.
-        * split; [reflexivity|]. intros q1 q2 n S1 S2. cbn [fst snd] in *.
+        * split; [reflexivity|]. split; [sfx|]. split; [sfx|]. intros q1 q2 n S1 S2. cbn [fst snd] in *.
           apply same_ctrs_nil in S1, S2. subst. apply tree_refl. apply P.
         * apply IHfs. apply P.
   Qed.
 
   Lemma container_refl : forall k, container_ok k -> RelT (thunk_of_container k) (thunk_of_container k).
   Proof.
-    intros [xs|rows|fs|o|tr] [NP OK]; cbn in *; [| | | |now apply tree_refl].
+    intros [xs|rows|fs|o|tr|ds] [NP OK]; cbn in *; [| | | |now apply tree_refl|contradiction].
     - now apply row_refl.
     - apply relT_val. constructor. apply RV_arr', ArrR_of_elems.
       apply Forall2_refl_in. intros t Ht. apply in_map_iff in Ht as [r [<- Hr]].
@@ -235,8 +241,8 @@ Section Programs.
     RelT (thunk_of_container (plug k pos AProbe)) (thunk_of_container (plug k pos a)).
   Proof.
     intros k pos a OK HA. pose proof OK as [NP _].
-    destruct k as [xs|rows|fs|o|tr]; cbn [plug]; cbn [atoms_of] in NP;
-      [| | | |cbn [thunk_of_container]; apply plug_tree_rel; [exact HA | apply OK]].
+    destruct k as [xs|rows|fs|o|tr|ds]; cbn [plug]; cbn [atoms_of] in NP;
+      [| | | |cbn [thunk_of_container]; apply plug_tree_rel; [exact HA | apply OK]|destruct OK as [_ []]].
     - destruct pos as [|i [|? ?]]; try (apply container_refl; exact OK). cbn.
       apply rows_rel. apply set_nth_rel; [now apply AR_in | now apply hole_atom].
     - destruct pos as [|i [|j [|? ?]]]; try (apply container_refl; exact OK).
@@ -263,10 +269,10 @@ Section Programs.
                    (map (fun '(k, a) => (k, (thunk_of_atom a, []))) (set_nth i (name, AProbe) l))
                    (map (fun '(k, a) => (k, (thunk_of_atom a, []))) (set_nth i (name, a) l))) as G.
       { induction l as [|[k0 a0] l IH]; intros [|i'] N; cbn in *; try constructor.
-        - split; [reflexivity|]. intros q1 q2 n S1 S2. cbn [fst snd] in *.
+        - split; [reflexivity|]. split; [sfx|]. split; [sfx|]. intros q1 q2 n S1 S2. cbn [fst snd] in *.
           apply same_ctrs_nil in S1, S2. subst. now apply hole_atom.
         - apply fields_refl. intros C. apply N. now right.
-        - split; [reflexivity|]. intros q1 q2 n S1 S2. cbn [fst snd] in *.
+        - split; [reflexivity|]. split; [sfx|]. split; [sfx|]. intros q1 q2 n S1 S2. cbn [fst snd] in *.
           apply same_ctrs_nil in S1, S2. subst. apply atom_rel. intros ->. apply N. now left.
         - apply IH. intros C. apply N. now right. }
       apply G. exact NP.
@@ -409,6 +415,12 @@ Section Programs.
     exists (fst fl). split; [now apply in_map | apply String.eqb_refl].
   Qed.
 
+  Lemma close_fields_of : forall fs, close_rec (fields_of fs) = fields_of fs.
+  Proof.
+    intros fs. apply close_sf. unfold rsf, fields_of. rewrite forallb_forall. intros fl Hfl.
+    apply in_map_iff in Hfl as [[k x] [<- _]]. cbn. apply sf_atom.
+  Qed.
+
   Lemma fields_of_keys : forall fs, map fst (fields_of fs) = map fst fs.
   Proof. unfold fields_of. induction fs as [|[k x] fs IH]; cbn; congruence. Qed.
 
@@ -422,7 +434,7 @@ Section Programs.
   Theorem guarded : forall k pos T, wf_case k pos T = true ->
     RelT (thunk_of_container (plug k pos AProbe)) (TCtr (true, T) (thunk_of_container (plug k pos a))).
   Proof.
-    intros k pos T WF. destruct k as [xs|rows|fs|o|tr]; cbn in WF; try discriminate.
+    intros k pos T WF. destruct k as [xs|rows|fs|o|tr|ds]; cbn in WF; try discriminate.
     - (* array *)
       destruct pos as [|i [|? ?]]; try discriminate. destruct T; try discriminate. destruct T; try discriminate.
       cbn [plug thunk_of_container]. apply arr_guard. now apply GR_plug.
@@ -466,17 +478,19 @@ Section Programs.
       destruct T; try discriminate; destruct T; try discriminate.
       + (* {_ : Number} *)
         destruct (PL i WF) as [l1 [l2 [-> [-> [K1 [K2 F]]]]]]. cbn [thunk_of_container].
-        intros n. rewrite eval_TCtr, !eval_TVal. cbn. constructor. apply RV_rec'. unfold prim_record_map.
+        fold (fields_of l1). fold (fields_of l2).
+        intros n. rewrite eval_TCtr, !eval_TVal. unfold apply_ctr, bind. rewrite close_fields_of.
+        constructor. apply RV_rec'. unfold prim_record_map, fields_of.
         rewrite map_map. clear -F.
         induction F as [|[k1 x1] [k2 x2] l1 l2 [E G] _ IH]; cbn; constructor; auto.
-        split; [exact E|]. intros q1 q2 n S1 S2. cbn [fst snd] in *. apply same_ctrs_nil in S1, S2. subst.
+        split; [exact E|]. split; [sfx|]. split; [sfx|]. intros q1 q2 n S1 S2. cbn [fst snd] in *. apply same_ctrs_nil in S1, S2. subst.
         cbn [tctrs fold_left fld_thunk fst snd]. apply G.
       + (* {_ | Number} *)
         destruct (PL i WF) as [l1 [l2 [-> [-> [K1 [K2 F]]]]]]. cbn [thunk_of_container].
         intros n. rewrite eval_TCtr, !eval_TVal. cbn. constructor. apply RV_rec'. unfold prim_record_lazy_app.
         rewrite map_map. clear -F.
         induction F as [|[k1 x1] [k2 x2] l1 l2 [E G] _ IH]; cbn; constructor; auto.
-        split; [exact E|]. intros q1 q2 n S1 S2. cbn [fst snd] in *. apply same_ctrs_nil in S1. subst.
+        split; [exact E|]. split; [sfx|]. split; [sfx|]. intros q1 q2 n S1 S2. cbn [fst snd] in *. apply same_ctrs_nil in S1. subst.
         apply same_ctrs_single in S2 as [b' ->]. cbn [tctrs fold_left]. apply G.
       + (* {a : Number, ...} *)
         apply andb_prop in WF as [WF ND]. apply andb_prop in WF as [WF EQ].
@@ -485,12 +499,12 @@ Section Programs.
         fold (fields_of l1). fold (fields_of l2).
         assert (map fst fs = map fst (fields_of l2)) as EQK by (rewrite fields_of_keys; congruence).
         rewrite EQK in ND |- *. clear PL EQK.
-        intros n. rewrite eval_TCtr, !eval_TVal. unfold apply_ctr, bind.
+        intros n. rewrite eval_TCtr, !eval_TVal. unfold apply_ctr, bind. cbv zeta. rewrite close_fields_of.
         rewrite forallb_self_keys, forallb_self_mem. cbn [negb].
         rewrite (nodupb_lookup (fields_of l2) (fun x p => (TCtr (true, CNum) (tctrs p x), [])) ND).
         constructor. apply RV_rec'. unfold fields_of. rewrite !map_map. clear -F.
         induction F as [|[k1 x1] [k2 x2] l1 l2 [E G] _ IH]; cbn; constructor; auto.
-        split; [exact E|]. intros q1 q2 n S1 S2. cbn [fst snd] in *. apply same_ctrs_nil in S1, S2. subst.
+        split; [exact E|]. split; [sfx|]. split; [sfx|]. intros q1 q2 n S1 S2. cbn [fst snd] in *. apply same_ctrs_nil in S1, S2. subst.
         cbn [tctrs fold_left]. apply G.
       + (* {a | Number, ...} *)
         apply andb_prop in WF as [WF HK]. apply andb_prop in WF as [WF MEM].
@@ -511,7 +525,7 @@ Section Programs.
         rewrite andb_false_r. cbn [negb app].
         constructor. apply RV_rec'. unfold fields_of. rewrite !map_map. clear -F.
         induction F as [|[k1 x1] [k2 x2] l1 l2 [E G] _ IH]; cbn; constructor; auto.
-        split; [exact E|]. intros q1 q2 n S1 S2. cbn [fst snd] in *. apply same_ctrs_nil in S1. subst.
+        split; [exact E|]. split; [sfx|]. split; [sfx|]. intros q1 q2 n S1 S2. cbn [fst snd] in *. apply same_ctrs_nil in S1. subst.
         apply same_ctrs_single in S2 as [b' ->]. cbn [tctrs fold_left]. apply G.
   Qed.
 End Programs.
